@@ -61,6 +61,7 @@ type world struct {
 	hits    []corr.Hit
 	hitSet  map[string]bool
 	objs    map[int]*ptrObj   // pointees of the pointer keys of this script
+	dead    bool              // the map's mutex was left locked: nothing more can be asked of it
 	others  []semap.SemMapper // other containers created by `newmap` while this one is in use
 }
 
@@ -391,7 +392,9 @@ func (w *world) relRace(c, u *call) string {
 	sec := w.section(c.tok)
 	sw, _ := c.w.Load().(*semap.Weighted)
 	wasParked := u.status == stParked
-	semap.VerifLock(w.m, c.key)
+	if !w.guarded("lock", func() { semap.VerifLock(w.m, c.key) }) {
+		return "dead"
+	}
 	t := w.s.Go("rel"+strconv.Itoa(c.tid), func() string {
 		if c.write {
 			atomic.AddInt32(&sec.w, -1)
@@ -469,7 +472,7 @@ func runBurst(variant string, rw, prime, n int) (string, []corr.Hit) {
 		w.hit("burst-fresh-key-not-granted", fmt.Sprintf("%d fresh keys on a new map (rwRatio %d): an Acquire* on a key nobody holds did not return nil (%v %s)", n, rw, done, res))
 		return "blocked", w.hits
 	}
-	live := semap.VerifEntries(w.m)
+	live := w.entries()
 	// a held key refuses a second writer (context already ended: the call must come back with the context's error)
 	dead, cancel := context.WithCancel(context.Background())
 	cancel()
@@ -483,7 +486,9 @@ func runBurst(variant string, rw, prime, n int) (string, []corr.Hit) {
 		return "ok"
 	})
 	w.settle()
-	if done, res := probe.Done(); !done || res != "ok" {
+	if done, res := probe.Done(); done && strings.HasPrefix(res, "panic:") {
+		w.hit("panic", fmt.Sprintf("burst of %d held keys: AcquireWrite with an ended context on a held key ended with %s", n, res))
+	} else if !done || res != "ok" {
 		w.hit("excl-writer-not-alone", fmt.Sprintf("burst of %d held keys (rwRatio %d): a second writer was admitted on a held key (%v %s)", n, rw, done, res))
 	}
 	rel := w.s.Go("burst-release", func() string {
@@ -500,7 +505,7 @@ func runBurst(variant string, rw, prime, n int) (string, []corr.Hit) {
 	if done, _ := rel.Done(); !done {
 		w.hit("release-blocked", fmt.Sprintf("burst of %d keys: the releases did not return", n))
 	}
-	after := semap.VerifEntries(w.m)
+	after := w.entries()
 	if after != 0 {
 		w.hit("residue-entry-kept", fmt.Sprintf("%d distinct keys were held at once (%d entries) and all released, nobody waits, yet the container keeps %d entries", n, live, after))
 	}
@@ -517,6 +522,9 @@ func (w *world) weight(c *call) int {
 // monitors restates the property on what the callers themselves observe (who is inside, who is still blocked,
 // in which order they arrived) plus the entry-present bit; independent of the Lean model. Called at quiescence.
 func (w *world) monitors(line string) {
+	if w.dead {
+		return
+	}
 	for _, tok := range w.keys {
 		var readers, writers, sum int
 		var firstParked *call
@@ -582,7 +590,7 @@ func (w *world) monitors(line string) {
 		// no residue: nobody inside, nobody blocked => no entry
 		if len(ins) == 0 && len(parked) == 0 {
 			if k, _, routable, ok := w.parseKey(tok); ok && (routable || w.variant == "single") {
-				if _, _, present := semap.VerifKeyState(w.m, k); present {
+				if _, _, present := w.keyState(k); present {
 					w.hit("residue-entry-kept", desc+"; the container still has an entry for the key")
 				}
 			}
@@ -614,6 +622,34 @@ func (w *world) routingStable(line string) {
 	}
 }
 
+// guarded runs a call that takes the map's mutex (the hooks) in its own goroutine: if a caller of the package left the
+// mutex locked (panic between Lock and Unlock, forgotten Unlock) the call never comes back — that is a monitor hit, and the
+// map is dead for the rest of the script (every later line answers `dead`); the harness itself never blocks on it.
+func (w *world) guarded(what string, fn func()) bool {
+	if w.dead {
+		return false
+	}
+	t := w.s.Go("hook-"+what, func() string { fn(); return "ok" })
+	w.settle()
+	if done, _ := t.Done(); !done {
+		w.dead = true
+		w.hit("mutex-left-locked", fmt.Sprintf("%s: the container's mutex is held by nobody who will release it (a call of the package ended - by panic or return - with the mutex locked); every later Acquire*/Release* blocks for ever", what))
+		return false
+	}
+	return true
+}
+
+func (w *world) entries() int {
+	n := -1
+	w.guarded("entry count", func() { n = semap.VerifEntries(w.m) })
+	return n
+}
+
+func (w *world) keyState(k interface{}) (held, waiters int, present bool) {
+	w.guarded("key state", func() { held, waiters, present = semap.VerifKeyState(w.m, k) })
+	return
+}
+
 // idleEntries: when nobody is inside or blocked on any key, the container must be empty — whatever dynamic type or
 // value the keys had when the entries were created (a per-key lookup would miss an entry stored under another key).
 func (w *world) idleEntries(line string) {
@@ -623,7 +659,7 @@ func (w *world) idleEntries(line string) {
 			return
 		}
 	}
-	if n := semap.VerifEntries(w.m); n != 0 {
+	if n := w.entries(); n > 0 {
 		w.hit("residue-entry-kept", fmt.Sprintf("after `%s` nobody is inside or blocked on any key, yet the container keeps %d entries", line, n))
 	}
 }
@@ -639,7 +675,7 @@ func (w *world) cleanup() {
 	}
 }
 
-func runCase(c corr.Case) (res corr.Result) {
+func runCaseLocal(c corr.Case) (res corr.Result) {
 	var w *world
 	defer func() {
 		if w != nil {
@@ -716,6 +752,9 @@ func runCase(c corr.Case) (res corr.Result) {
 				return "bad-op"
 			}
 			w.event++
+			if w.dead {
+				return "dead"
+			}
 			switch {
 			case len(f) == 3 && (f[0] == "acqR" || f[0] == "acqW" || f[0] == "acqRx" || f[0] == "acqWx"):
 				tid, ok := natCanon(f[1], 9)
@@ -810,7 +849,7 @@ func runCase(c corr.Case) (res corr.Result) {
 				}
 				return "in=" + showIDs(ins) + " parked=" + showIDs(parked)
 			case len(f) == 1 && f[0] == "entries":
-				return strconv.Itoa(semap.VerifEntries(w.m))
+				return strconv.Itoa(w.entries())
 			case len(f) == 2 && f[0] == "obj":
 				tid, ok := natCanon(f[1], 9)
 				if !ok || w.calls[tid] == nil || w.calls[tid].status != stInside {
@@ -818,7 +857,9 @@ func runCase(c corr.Case) (res corr.Result) {
 				}
 				c := w.calls[tid]
 				sw, _ := c.w.Load().(*semap.Weighted)
-				held, waiters, inMap := semap.VerifSemState(w.m, c.key, sw)
+				var held, waiters int
+				var inMap bool
+				w.guarded("object state", func() { held, waiters, inMap = semap.VerifSemState(w.m, c.key, sw) })
 				p := 0
 				if inMap {
 					p = 1
@@ -832,7 +873,7 @@ func runCase(c corr.Case) (res corr.Result) {
 				if !routable && w.variant != "single" {
 					return "cur=0 waiters=0 present=0" // never stored: the lookup itself would panic in remap
 				}
-				held, waiters, present := semap.VerifKeyState(w.m, k)
+				held, waiters, present := w.keyState(k)
 				p := 0
 				if present {
 					p = 1
